@@ -36,7 +36,7 @@ PRODUCERS = [
     ({"cls": "OBV", "params": {}, "common": {}}, "OBV"),
 ]
 CONSUMERS = ["SMA", "EMA", "WMA", "RMA", "HMA", "KC", "MACD", "RSI", "StandardDeviation", "BBANDS",
-             "StandardDeviationThreshold", "TSI"]
+             "StandardDeviationThreshold", "TSI", "ROC"]
 SCALES = [0.01, 1.0, 100.0, 100.0, 10000.0, 1000000.0]
 
 
